@@ -3,6 +3,7 @@ import warnings
 from datetime import datetime
 from collections.abc import Iterable
 from collections.abc import Iterator
+from collections.abc import Mapping
 
 from .vector import Vector
 from .vector import _at_midnight
@@ -898,9 +899,10 @@ class Table(Vector):
 				self._underlying[col_idx][row_spec] = value.cols()[i]
 			return
 
-		# CASE C2: One target column and a plain vector (or range) of values
+		# CASE C2: One target column and any other sequence of values (a vector, a range, a deque,
+		# an array ... - not a mapping): the column's own assignment decides, as it does for v[key] = value
 		# t[:, 'x'] = Vector([1, 2, 3])
-		if len(target_indices) == 1 and isinstance(value, (Vector, range)):
+		if len(target_indices) == 1 and not isinstance(value, (list, tuple, Mapping)):
 			self._underlying[target_indices[0]][row_spec] = value
 			return
 
